@@ -29,5 +29,6 @@ CONSTANTS
   AsImplemented_ZeroAverageNaN = TRUE
   AsImplemented_HugeAgePanics = TRUE
   Variant_StrictThreshold = FALSE
+SYMMETRY Sym
 INVARIANTS TypeOK JoinsOrdered PrefixExact PrefixNamesSharers SimilarityBounded AsymSound AnalyzeCovers GroupsOnlyByAnalysis SuspectedIffMember GroupCountBounded ClearEmpties CleanupOnlyOld RecordsWithinWindow
 CHECK_DEADLOCK FALSE
